@@ -31,13 +31,19 @@ func (k Key) Apply(c op.Chord) ([]MIDINoteNumber, error) {
 
 	var (
 		result []MIDINoteNumber
-		add    = func(x MIDINoteNumber) {
-			result = append(result, x)
+		// a note outside the MIDI range is refused: written as it is, it would
+		// be clamped or wrap around and sound as another note
+		add = func(x int) error {
+			if x < 0 || x > maxMIDINoteNumber {
+				return errorx.Invalid("Chord %s note %d is out of the MIDI range", c, x)
+			}
+			result = append(result, MIDINoteNumber(x))
+			return nil
 		}
 		// C4 + key
-		keyNumber = MiddleC.MIDINoteNumber() + MIDINoteNumber(k.key.Semitone())
+		keyNumber = int(MiddleC.MIDINoteNumber()) + int(k.key.Semitone())
 		// root of chord
-		rootNumber = keyNumber + MIDINoteNumber(cd)
+		rootNumber = keyNumber + int(cd)
 	)
 
 	// base note
@@ -46,7 +52,9 @@ func (k Key) Apply(c op.Chord) ([]MIDINoteNumber, error) {
 		if !ok {
 			return nil, errorx.Conversion("Chord %s invalid base", c)
 		}
-		add(rootNumber + MIDINoteNumber(b) - MIDINoteNumber(note.Octave(1).Semitone()))
+		if err := add(rootNumber + int(b) - int(note.Octave(1).Semitone())); err != nil {
+			return nil, err
+		}
 	}
 	// chord notes
 	for _, a := range attrs {
@@ -54,7 +62,11 @@ func (k Key) Apply(c op.Chord) ([]MIDINoteNumber, error) {
 		if !ok {
 			return nil, errorx.Conversion("Chord %s invalid attribute %s", c, a.Name)
 		}
-		add(rootNumber + MIDINoteNumber(b))
+		if err := add(rootNumber + int(b)); err != nil {
+			return nil, err
+		}
 	}
 	return result, nil
 }
+
+const maxMIDINoteNumber = 127
